@@ -52,6 +52,14 @@ Theorem C19_stored_unredacted : forall profiles st id node wtype tls ttl p st1 r
 Proof. exact stored_unredacted. Qed.
 Print Assumptions C19_stored_unredacted.
 
+(* Kubernetes work units: secret_kube_config and secret_kube_pod are blanked in everything a status
+   or list reply is built from *)
+Theorem C19_kube_view_hides : forall r,
+  k_config (kube_view r) = [] /\ k_pod (kube_view r) = [] /\
+  k_namespace (kube_view r) = k_namespace r /\ k_image (kube_view r) = k_image r.
+Proof. exact kube_view_hides. Qed.
+Print Assumptions C19_kube_view_hides.
+
 (* non-vacuity: an accepted submission with two secret and two other parameters; status, list
    and list-one replies before and after a restart and a cancel all show the two others *)
 Example C19_nonvacuous :
